@@ -360,6 +360,36 @@ def replay_stage(R):
 
 # ---- the check ------------------------------------------------------------------------------------
 
+def depgraph_correspondence(programs):
+    """every dependency graph the hooked compiler built (one per root: handlers, middlewares, error observers' closures, the
+    application state): the tables the real loop consulted are the model's database; compute nodes and the edges between
+    them must agree as sets, and the modelled loop must end by itself"""
+    lines, meta = [], []
+    seen = set()
+    for o in programs:
+        for r in o.get("dump") or []:
+            if r.get("ev") != "depgraph":
+                continue
+            key = json.dumps(r, sort_keys=True)
+            if key in seen:
+                continue
+            seen.add(key)
+            lines.append(json.dumps({k: r[k] for k in ("root", "observers", "inputs", "deps", "eh", "tr")}))
+            meta.append((o["name"], r))
+    outs = [json.loads(x) for x in pxvlib.run_model("dep", lines)] if lines else []
+    dis = []
+    stats = {"graphs": len(lines), "with_error_handlers": 0, "with_transformers": 0, "largest": 0, "rounds_needed_more_than_one": 0}
+    for (name, r), mo in zip(meta, outs):
+        stats["with_error_handlers"] += 1 if r["eh"] else 0
+        stats["with_transformers"] += 1 if any(t for _, t in r["tr"]) else 0
+        stats["largest"] = max(stats["largest"], len(r["nodes"]))
+        if mo.get("r") != "ok" or not mo.get("ended") or sorted(mo["nodes"]) != sorted(r["nodes"]) or \
+                sorted(map(tuple, mo["edges"])) != sorted(map(tuple, r["edges"])):
+            dis.append({"program": name, "record": r, "model": mo})
+    stats["disagreements"] = dis
+    return stats
+
+
 def run(R):
     R.assumptions += [
         "the abstract database is derived from the generator's spec (tools/gen_planted.py adb_of), not from pavexc's internal tables; generic constructors, prebuilt/config types and inputs of error handlers are outside the model",
@@ -512,7 +542,13 @@ def run(R):
     pure = [d for d in disagreements if not d.get("failed_oracle")] + h_dis
     R.coverage["model_vs_impl_disagreements"] = len(pure)
     R.log("planted programs=%d verdicts=%s oracle_failures=%d disagreements=%d harness_cases=%d" % (len(cases), hist, n_fail, len(pure), h_n))
+    # the graph the cycle search runs on: `DependencyGraph::build` vs Pxv.Dep.build (hook fa3ad8e), every program of the stage
+    dg = depgraph_correspondence(list(obs.values())) if model_ok and not R.replay else {"graphs": 0, "disagreements": []}
+    R.coverage["dependency_graph_correspondence"] = {k: (v if k != "disagreements" else len(v)) for k, v in dg.items()}
     broken = []
+    if dg["disagreements"]:
+        broken.append("correspondence `build` (DependencyGraph::build): the modelled loop and the real one disagree on %d/%d dependency graphs, first: %s" % (
+            len(dg["disagreements"]), dg["graphs"], json.dumps(dg["disagreements"][0])[:700]))
     if not lean_ok:
         broken.append("proof obligations of Pxv.Thm.C08 no longer check: %s" % (lrep.get("errors") or lrep.get("bad_axioms") or lrep.get("forbidden_tokens") or lrep.get("audit_error", "")[:300]))
     if not model_ok:
